@@ -6,6 +6,7 @@ CONSTANTS
   ReadFroms <- GenReadFroms
   MaxCalls <- GenMaxCalls
   HelperCodes <- GenHelperCodes
+  RedirectCodes <- GenRedirectCodes
 VIEW view
 INVARIANTS TypeOK AtMostOneFinal StatusIsFirstFinal SizeIsAccepted WrittenIff BodyNeedsHeader
 PROPERTIES NoHeaderAfterBody BodyMonotone
